@@ -5,6 +5,8 @@
 #include "BaseGraph/directed_graph.hpp"
 #include <cstdio>
 #include <list>
+#include <numeric>
+#include <string>
 #include <sstream>
 #include <vector>
 
@@ -77,6 +79,26 @@ inline std::string bad_noexcept(const std::string &line) noexcept {
 
 inline std::size_t good_noexcept(const std::string &line) noexcept { return line.size(); }
 
+// F-ACCW ---------------------------------------------------------------------------------------------------
+inline std::size_t bad_accwidth(const std::list<unsigned> &values) {
+    return std::accumulate(values.begin(), values.end(), 0u,
+                           [](std::size_t sum, unsigned v) -> std::size_t { return sum + v; });   // accumulator is unsigned int
+}
+
+inline std::size_t good_accwidth(const std::list<unsigned> &values) {
+    return std::accumulate(values.begin(), values.end(), std::size_t(0),
+                           [](std::size_t sum, unsigned v) -> std::size_t { return sum + v; });
+}
+
+// D-STRPLUS -------------------------------------------------------------------------------------------------
+inline std::string bad_strplus(unsigned vertex) {
+    return std::string("Vertex index out of range: " + vertex);      // pointer arithmetic on the literal
+}
+
+inline std::string good_strplus(unsigned vertex) {
+    return "Vertex index out of range: " + std::to_string(vertex);
+}
+
 // F-IO.READ (look-ahead) ------------------------------------------------------------------------------------
 inline bool bad_lookahead(std::istream &stream) {
     char next;
@@ -105,6 +127,10 @@ void bgcheck_fixture_use() {
     (void)BaseGraph::fixture::good_cursor(l);
     (void)BaseGraph::fixture::bad_noexcept("a b");
     (void)BaseGraph::fixture::good_noexcept("a b");
+    (void)BaseGraph::fixture::bad_accwidth(l);
+    (void)BaseGraph::fixture::good_accwidth(l);
+    (void)BaseGraph::fixture::bad_strplus(3);
+    (void)BaseGraph::fixture::good_strplus(3);
     std::istringstream in("x");
     (void)BaseGraph::fixture::bad_lookahead(in);
     (void)BaseGraph::fixture::good_lookahead(in);
